@@ -687,6 +687,17 @@ pub fn op_lex(args: &[Sexp]) -> String {
         Err(_) => "err".into(),
     }
 }
+/// `LefParser::state` (the error report) at every parser position, through the hook `verif_hooks::states`
+pub fn op_states(args: &[Sexp]) -> String {
+    let txt = match text_arg(args.get(0)) { Some(t) => t, None => return "bad-op".into() };
+    match lef21::verif_hooks::states(&txt) {
+        Ok(sts) => {
+            let items: Vec<String> = sts.iter().map(|(lc, ln, tok, pos)| format!("({} {} {} {})", of_bytes(lc.as_bytes()), ln, of_bytes(tok.as_bytes()), pos)).collect();
+            format!("ok ({})", items.join(" "))
+        }
+        Err(_) => "err".into(),
+    }
+}
 macro_rules! enum_tables {
     ($name:expr, $txt:expr, $($t:ident),*) => {
         match $name {
@@ -958,6 +969,7 @@ pub fn oracle_c11(line: &str) -> String {
     let p = match parsed(line) { Some(p) => p, None => return "na".into() };
     let res = crate::ops::run_line(line);
     match p[0].atom().unwrap_or("") {
+        "lef.states" => if res == "panic" { "fail building the error report panicked at some parser position".into() } else if res.starts_with("ok") || res == "err" { "pass".into() } else { format!("fail {}", res) },
         "lef.crash" | "lef.lex" | "lef.parse" => if res == "panic" { "fail the reader panicked".into() } else if res.starts_with("ok") || res == "err" { "pass".into() } else { format!("fail {}", res) },
         "lef.big" => if res.ends_with("linear") { "pass".into() } else { format!("fail reading time is not proportional to the input length: {}", res) },
         _ => "na".into(),
@@ -1098,7 +1110,13 @@ pub fn gen_c11(thorough: bool, rng: &mut Rng, out: &mut Vec<String>) {
     let push = |out: &mut Vec<String>, s: &str, lex: bool| {
         out.push(format!("lef.crash {}", text_hex(s)));
         out.push(format!("lef.parse {}", text_hex(s)));
-        if lex { out.push(format!("lef.lex {}", text_hex(s))); }
+        if lex {
+            out.push(format!("lef.lex {}", text_hex(s)));
+            // the error report at every parser position (on a prefix of at most 1200 characters: the
+            // answer lists up to 200 characters per position)
+            let cut = s.char_indices().nth(1200).map(|(i, _)| i).unwrap_or(s.len());
+            out.push(format!("lef.states {}", text_hex(&s[..cut])));
+        }
     };
     // degenerate texts first
     for s in ["", " ", "\n", "#", "# é", "\"", "\"é", ";", "é", "中文", "-", "+", ".", "1", "1e", "VERSION", "VERSION 5.8", "VERSION 5.8 ;", "MACRO", "MACRO é", "END", "END LIBRARY", "BEGINEXT", "BEGINEXT \"x\"", "BEGINEXT \"x\" é", "UNITS", "PROPERTYDEFINITIONS", "VIA v", "SITE s", "\u{a0}", "\u{2028}MACRO", "a\u{3000}b", "𝄞", "\r", "\r\n\r\n", "\t\t", "MACRO a\nFOREIGN é 1 ;", "VERSION é ;", "MACRO m PIN p PORT LAYER l ; RECT 0 0 é 1 ;", "MACRO m SIZE 1 BY", "MACRO m\n  SIZE é BY 2 ;\nEND m", "NAMESCASESENSITIVE ON ;", "VERSION 5.4 ; NAMESCASESENSITIVE ü ;",
